@@ -11,8 +11,10 @@ B. field reversal, by unfolding the GENERATED formulas Gen.R.Metric.* / Gen.R.Fi
    NOTE (correction of the informal wording "Bp ↦ Bp [it is |Bp|]"): `Bpxy` of mesh.py is SIGNED (geometry1 negates it when
    Bp·∇y < 0, and then requires bpsign = −1), so what psi ↦ −psi does to the inputs of calcMetric is
      Bp ↦ −Bp, bpsign ↦ −bpsign, dphidy = hy·Bt/(Bp·R) ↦ −dphidy, cosBeta ↦ −cosBeta (calcBeta: ∇psi-direction flips), tanBeta fixed.
-   Under THAT map every metric component is unchanged and J, Jcheck change sign (`reversal_signs_psi`).  Under the map as
-   worded (Bp fixed) J is unchanged but the nonorthogonal g13 changes sign (`reversal_signs_psi_absBp_*`).
+   Under THAT map J and Jcheck change sign, and so do the nonorthogonal x–y / x–z components g12, g13, g_12 (x = psi
+   changes direction; each carries one factor (−bpsign)·tanBeta since the calcMetric sign fix); every other component is
+   unchanged (`reversal_signs_psi`).  Under the map as worded (Bp fixed) J is unchanged, the nonorthogonal g12, g_12 change
+   sign and det(g^{ij}) is not invariant (`reversal_signs_psi_absBp_*`).
 C. citations of C19 (critical-point classification even in psi) and C09 (radial psi grid odd in psi).
 -/
 import HypnoModel.Lemmas.Mirror
@@ -128,24 +130,27 @@ theorem reversal_signs_psi_orth :
   rw [← neg_div]
   exact div_sqrt_congr (by ring) (by ring)
 
-/-- nonorth branch, the map the code applies: all off-diagonal components unchanged; J and Jcheck change sign -/
+/-- nonorth branch, the map the code applies (tanBeta, the geometric angle of calcBeta, fixed): the x–y and x–z components
+    g12, g13, g_12 change sign (x = psi changes direction; each carries one factor (−bpsign)·tanBeta), g23, g_13 (≡ 0),
+    g_23 are unchanged; J and Jcheck change sign (det(g^{ij}) is invariant: g12·g13·g23 is odd·odd·even) -/
 theorem reversal_signs_psi_nonorth :
-    nonorth.g12 R (-Bp) hy (-d) (-c) t (-s) = nonorth.g12 R Bp hy d c t s ∧
-    nonorth.g13 R (-Bp) hy (-d) (-c) t (-s) = nonorth.g13 R Bp hy d c t s ∧
+    nonorth.g12 R (-Bp) hy (-d) (-c) t (-s) = - nonorth.g12 R Bp hy d c t s ∧
+    nonorth.g13 R (-Bp) hy (-d) (-c) t (-s) = - nonorth.g13 R Bp hy d c t s ∧
     nonorth.g23 R (-Bp) hy (-d) (-c) t (-s) = nonorth.g23 R Bp hy d c t s ∧
-    nonorth.g_12 R (-Bp) hy (-d) (-c) t (-s) = nonorth.g_12 R Bp hy d c t s ∧
+    nonorth.g_12 R (-Bp) hy (-d) (-c) t (-s) = - nonorth.g_12 R Bp hy d c t s ∧
     nonorth.g_13 R (-Bp) hy (-d) (-c) t (-s) = nonorth.g_13 R Bp hy d c t s ∧
     nonorth.g_23 R (-Bp) hy (-d) (-c) t (-s) = nonorth.g_23 R Bp hy d c t s ∧
     nonorth.J R (-Bp) hy (-d) (-c) t (-s) = - nonorth.J R Bp hy d c t s ∧
     nonorth.Jcheck R (-Bp) hy (-d) (-c) t (-s) = - nonorth.Jcheck R Bp hy d c t s := by
-  refine ⟨by unfold nonorth.g12; rw [abs_neg], by unfold nonorth.g13; ring, by unfold nonorth.g23; rw [abs_neg]; ring,
-    by unfold nonorth.g_12; rw [abs_neg]; ring, rfl, by unfold nonorth.g_23; ring, by unfold nonorth.J; ring, ?_⟩
+  refine ⟨by unfold nonorth.g12; rw [abs_neg]; ring, by unfold nonorth.g13; ring,
+    by unfold nonorth.g23; rw [abs_neg]; ring, by unfold nonorth.g_12; rw [abs_neg]; ring, rfl, by unfold nonorth.g_23; ring, by unfold nonorth.J; ring, ?_⟩
   unfold nonorth.Jcheck
   rw [← neg_div, abs_neg]
   exact div_sqrt_congr (by ring) (by ring)
 
 /-- the table for psi ↦ −psi (reverse_current), both branches: under the map the code applies to the inputs of calcMetric
-    nothing in the metric changes sign except J (and the Jacobian check value Jcheck, which is compared with J) -/
+    what changes sign is J (and the Jacobian check value Jcheck, which is compared with J) and, on the nonorth branch, the
+    x–y / x–z components g12, g13, g_12 (identically 0 on the orth branch); everything else is unchanged -/
 theorem reversal_signs_psi :
     (orth.g12 R (-Bp) hy (-d) (-c) t (-s) = orth.g12 R Bp hy d c t s ∧
      orth.g13 R (-Bp) hy (-d) (-c) t (-s) = orth.g13 R Bp hy d c t s ∧
@@ -155,10 +160,10 @@ theorem reversal_signs_psi :
      orth.g_23 R (-Bp) hy (-d) (-c) t (-s) = orth.g_23 R Bp hy d c t s ∧
      orth.J R (-Bp) hy (-d) (-c) t (-s) = - orth.J R Bp hy d c t s ∧
      orth.Jcheck R (-Bp) hy (-d) (-c) t (-s) = - orth.Jcheck R Bp hy d c t s) ∧
-    (nonorth.g12 R (-Bp) hy (-d) (-c) t (-s) = nonorth.g12 R Bp hy d c t s ∧
-     nonorth.g13 R (-Bp) hy (-d) (-c) t (-s) = nonorth.g13 R Bp hy d c t s ∧
+    (nonorth.g12 R (-Bp) hy (-d) (-c) t (-s) = - nonorth.g12 R Bp hy d c t s ∧
+     nonorth.g13 R (-Bp) hy (-d) (-c) t (-s) = - nonorth.g13 R Bp hy d c t s ∧
      nonorth.g23 R (-Bp) hy (-d) (-c) t (-s) = nonorth.g23 R Bp hy d c t s ∧
-     nonorth.g_12 R (-Bp) hy (-d) (-c) t (-s) = nonorth.g_12 R Bp hy d c t s ∧
+     nonorth.g_12 R (-Bp) hy (-d) (-c) t (-s) = - nonorth.g_12 R Bp hy d c t s ∧
      nonorth.g_13 R (-Bp) hy (-d) (-c) t (-s) = nonorth.g_13 R Bp hy d c t s ∧
      nonorth.g_23 R (-Bp) hy (-d) (-c) t (-s) = nonorth.g_23 R Bp hy d c t s ∧
      nonorth.J R (-Bp) hy (-d) (-c) t (-s) = - nonorth.J R Bp hy d c t s ∧
@@ -181,14 +186,15 @@ theorem reversal_signs_psi_absBp_orth :
   rw [← neg_div]
   exact div_sqrt_congr (by ring) (by ring)
 
-/-- nonorth branch, the map as worded (Bp fixed): g13 = −R·Bp·dphidy·tanBeta/hy changes sign, everything else and J are
-    unchanged; the determinant under the square root of Jcheck is NOT invariant (it changes by −4·g12·g13·g23), which is
-    how one sees that Bp fixed is not the map the code applies -/
+/-- nonorth branch, the map as worded (Bp fixed): g12 = −bpsign·R·|Bp|·tanBeta/hy and g_12 change sign; g13 =
+    bpsign·R·Bp·dphidy·tanBeta/hy (odd·odd), everything else and J are unchanged; the determinant under the square root
+    of Jcheck is NOT invariant (it changes by −4·g12·g13·g23), which is how one sees that Bp fixed is not the map the code
+    applies -/
 theorem reversal_signs_psi_absBp_nonorth :
-    nonorth.g12 R Bp hy (-d) c t (-s) = nonorth.g12 R Bp hy d c t s ∧
-    nonorth.g13 R Bp hy (-d) c t (-s) = - nonorth.g13 R Bp hy d c t s ∧
+    nonorth.g12 R Bp hy (-d) c t (-s) = - nonorth.g12 R Bp hy d c t s ∧
+    nonorth.g13 R Bp hy (-d) c t (-s) = nonorth.g13 R Bp hy d c t s ∧
     nonorth.g23 R Bp hy (-d) c t (-s) = nonorth.g23 R Bp hy d c t s ∧
-    nonorth.g_12 R Bp hy (-d) c t (-s) = nonorth.g_12 R Bp hy d c t s ∧
+    nonorth.g_12 R Bp hy (-d) c t (-s) = - nonorth.g_12 R Bp hy d c t s ∧
     nonorth.g_13 R Bp hy (-d) c t (-s) = nonorth.g_13 R Bp hy d c t s ∧
     nonorth.g_23 R Bp hy (-d) c t (-s) = nonorth.g_23 R Bp hy d c t s ∧
     nonorth.J R Bp hy (-d) c t (-s) = nonorth.J R Bp hy d c t s ∧
@@ -197,8 +203,8 @@ theorem reversal_signs_psi_absBp_nonorth :
       det3 (nonorth.g11 R Bp hy d c t s) (nonorth.g22 R Bp hy d c t s) (nonorth.g33 R Bp hy d c t s)
         (nonorth.g12 R Bp hy d c t s) (nonorth.g13 R Bp hy d c t s) (nonorth.g23 R Bp hy d c t s)
       - 4 * nonorth.g12 R Bp hy d c t s * nonorth.g13 R Bp hy d c t s * nonorth.g23 R Bp hy d c t s := by
-  refine ⟨rfl, by unfold nonorth.g13; ring, by unfold nonorth.g23; ring, by unfold nonorth.g_12; ring, rfl,
-    by unfold nonorth.g_23; ring, rfl, ?_⟩
+  refine ⟨by unfold nonorth.g12; ring, by unfold nonorth.g13; ring, by unfold nonorth.g23; ring,
+    by unfold nonorth.g_12; ring, rfl, by unfold nonorth.g_23; ring, rfl, ?_⟩
   unfold det3 nonorth.g11 nonorth.g22 nonorth.g33 nonorth.g12 nonorth.g13 nonorth.g23
   ring
 
@@ -458,10 +464,19 @@ example : encodeX [3, 6] 3 .lower = encodeX [3, 6] 3 .upper := ixseps_mirror_le2
 example : Gen.R.Metric.orth.g23 2 3 5 7 1 (1/2) 1 = -7/25 ∧ Gen.R.Metric.orth.g23 2 (-3) 5 (-7) (-1) (1/2) (-1) = -7/25 ∧
     Gen.R.Metric.orth.J 2 3 5 7 1 (1/2) 1 = 5/3 ∧ Gen.R.Metric.orth.J 2 (-3) 5 (-7) (-1) (1/2) (-1) = -(5/3) := by
   unfold Gen.R.Metric.orth.g23 Gen.R.Metric.orth.J; norm_num
-example : Gen.R.Metric.nonorth.g13 2 3 5 7 1 (1/2) 1 = -21/5 ∧
+example : Gen.R.Metric.nonorth.g13 2 3 5 7 1 (1/2) 1 = 21/5 ∧
     Gen.R.Metric.nonorth.g13 2 (-3) 5 (-7) (-1) (1/2) (-1) = -21/5 ∧
     Gen.R.Metric.nonorth.g13 2 3 5 (-7) 1 (1/2) (-1) = 21/5 := by
   unfold Gen.R.Metric.nonorth.g13; norm_num
+
+-- g12 = −bpsign·R·|Bp|·tanBeta/hy and g_12 = bpsign·hy·tanBeta/(R·|Bp|): both odd under the code's map and under "Bp fixed"
+example : Gen.R.Metric.nonorth.g12 2 3 5 7 1 (1/2) 1 = -3/5 ∧
+    Gen.R.Metric.nonorth.g12 2 (-3) 5 (-7) (-1) (1/2) (-1) = 3/5 ∧
+    Gen.R.Metric.nonorth.g12 2 3 5 (-7) 1 (1/2) (-1) = 3/5 ∧
+    Gen.R.Metric.nonorth.g_12 2 3 5 7 1 (1/2) 1 = 5/12 ∧
+    Gen.R.Metric.nonorth.g_12 2 (-3) 5 (-7) (-1) (1/2) (-1) = -5/12 := by
+  unfold Gen.R.Metric.nonorth.g12 Gen.R.Metric.nonorth.g_12
+  rw [abs_neg, abs_of_pos (by norm_num : (0 : ℝ) < 3)]; norm_num
 
 -- B4 with l = 1/(2π): l ≠ 0, and g11 scales by 1/(4π²)
 example : (1 / (2 * π) : ℝ) ≠ 0 := by positivity
